@@ -665,8 +665,9 @@ def apply_layout(biom, spec, recipe, r):
         cands = []
         if np.all(D == np.floor(D)) and np.all(np.abs(D) < 2 ** 31):
             cands += [np.int32, np.int64]
-        if np.all(D.astype(np.float32).astype(np.float64) == D):
-            cands.append(np.float32)
+        with np.errstate(all='ignore'):
+            if np.all(D.astype(np.float32).astype(np.float64) == D):
+                cands.append(np.float32)
         if np.all((D == 0) | (D == 1)):
             cands.append(np.bool_)
         if cands and D.size:
